@@ -348,7 +348,19 @@ Case gen_case(const std::string &prop, const std::string &tier, uint64_t verif_s
         plan.steps.push_back(saveStep(5));
         if (r.chance(1, 4)) { Step p; p.op = OP_PRINT; plan.steps.push_back(p); }
     } else if (gp == "C03") {
-        if (r.chance(1, 4)) {
+        unsigned k3 = static_cast<unsigned>(r.below(100));
+        if (k3 >= 25 && k3 < 45) {
+            // a file of another writer (or a vendor file), loaded and then edited through the whole API: frames appended,
+            // replaced, columns, rates - the header words such an object inherited (first frame, parameter block, ...)
+            // meet the updaters
+            std::string src = "gen:" + tos(r.next() >> 1);
+            if (r.chance(1, thorough ? 10 : 40)) src = std::string("vendor:") + VENDORS[r.below(3)]; // a vendor file costs a second or two per case
+            plan.steps.push_back(loadStep(src));
+            Profile p2 = pf;
+            if (src.compare(0, 7, "vendor:") == 0) { p2.pct_big = 0; p2.max_frames = std::min(p2.max_frames, 3u); p2.n_custom_params = std::min(p2.n_custom_params, 2u); }
+            gen_history(r, p2, plan);
+            c.config = "load-then-history " + src;
+        } else if (k3 < 25) {
             std::string src = pickSource(r, false);
             plan.steps.push_back(loadStep(src));
             // load-then-edit
